@@ -761,6 +761,7 @@ func main() {
 				outcomes.AddN(k, v)
 			} else {
 				outcomes.AddN("linearizable", v)
+				outcomes.AddN("linearizable-result-vector:"+k, v) // which per-thread results occurred (vacuity guard: many must)
 				nOut++
 			}
 		}
